@@ -525,4 +525,9 @@ def install(pe, fs: FS):
         return prev(pe_, x, t)
 
     pe.ext["builtins.isinstance"] = lambda p_, a, k: _isinstance(p_, a[0], a[1])
+    # int(np.float64(5.0)) / float(np.int64(4)): the built-in number
+    for nm in ("int", "float"):
+        prev_num = pe.ext.get("builtins." + nm)
+        if prev_num is not None:
+            pe.ext["builtins." + nm] = lambda p_, a, k, prev_num=prev_num: prev_num(p_, [x.value if isinstance(x, NpScalar) else x for x in a], k)
     return fs
